@@ -302,7 +302,9 @@ func checkC17(r *Result) {
 				}
 				n++
 				v := tmP.Of(st.Val)
-				isReq := strings.HasSuffix(v.Op, "RequestPrepareProposal.LocalLastCommit") && len(v.Args) == 1 && v.Args[0].Find(func(x *Term) bool { return strings.HasPrefix(x.Op, "param:") && strings.HasSuffix(x.Op, "RequestPrepareProposal") }) != nil
+				isReq := strings.HasSuffix(v.Op, "RequestPrepareProposal.LocalLastCommit") && len(v.Args) == 1 && v.Args[0].Find(func(x *Term) bool {
+					return strings.HasPrefix(x.Op, "param:") && strings.HasSuffix(x.Op, "RequestPrepareProposal")
+				}) != nil
 				r.check(isReq, "COMMIT-INJECTED", "(*app.ProposalHandler).PrepareProposalHandler # the injected commit is the request's LocalLastCommit itself", P.Pos(st.Pos()), "injected: "+clip(v.String(), 140))
 			}
 		}
